@@ -613,7 +613,9 @@ class _Lower:
             entry = self.emit_call(fn, cargs, r, ex, sp, unwind)
             return entry, [(ex, known)]
         if kind == "wrap":
-            ex = self.new_block([self.agg(dest, action[1], action[2], [copy.deepcopy(payload)], sp)], {"t": "goto", "to": cont, "sp": sp})
+            st_w = self.agg(dest, action[1], action[2], [copy.deepcopy(payload)], sp)
+            st_w["rewrap"] = True           # the receiver's own payload handed on (`?`-like propagation), not a new value
+            ex = self.new_block([st_w], {"t": "goto", "to": cont, "sp": sp})
             return ex, [(ex, (action[1], action[2], _as_copy(payload)))]
         if kind == "wraparg":
             ex = self.new_block([self.agg(dest, action[1], action[2], [copy.deepcopy(args[action[3]])], sp)],
